@@ -6,9 +6,9 @@ import LokiModel.Generated.C13Tables
 * classification: `C13_classify_spec` (the tier chain equals the decision table `Guard`, for every input),
   `C13_guards_exhaustive_exclusive`, the five rows spelled out (`C13_classify_proc` …), `C13_create_class`
   (every symbol the factory returns has the class of the table applied to the type it resolved);
-  `C13_class`: the tier chain *is* the table of the property statement (`refClass`, subscripts *given* = non-empty)
-  for every input (full strength since the `fix:` commit for `empty-dimensions-array`; the old behaviour is kept
-  as a regression statement in `LokiModel/Findings/C13.lean`).
+  against the table of the property statement (`refClass`, subscripts *given* = non-empty) the code differs
+  exactly on `KnownEmptyDims`: `C13_class_full_false`, `C13_class_partial` (a repair that popped `dimensions=()` like
+  `None` was reverted: it broke stable tests of the CUF transformation, see notes/C13.md).
 * sharing: `C13_type_shared_partial` (all states, hence all histories: after `scope[name] = τ` every symbol of that
   name attached to a scope resolving the name to that scope reports `τ`, unless `τ` is DEFERRED *and* the
   symbol is a derived-type member, class `KnownDeferredMember`, `C13_type_shared_full_false`),
@@ -24,27 +24,19 @@ namespace LokiModel.C13
 def Guard : SymClass → Option Ty → Name → Option Nat → Prop
   | .procedureSymbol, ty, _, _ => isProc ty = true
   | .derivedTypeSymbol, ty, n, _ => isProc ty = false ∧ isDerivedNamed ty n = true
-  | .array, ty, n, d =>
-      isProc ty = false ∧ isDerivedNamed ty n = false ∧ ((∃ k, d = some (k + 1)) ∨ shapeTruthy ty = true)
+  | .array, ty, n, d => isProc ty = false ∧ isDerivedNamed ty n = false ∧ (d.isSome = true ∨ shapeTruthy ty = true)
   | .scalar, ty, n, d =>
-      isProc ty = false ∧ isDerivedNamed ty n = false ∧ (d = none ∨ d = some 0) ∧ shapeTruthy ty = false ∧ cleanOpt ty = true
+      isProc ty = false ∧ isDerivedNamed ty n = false ∧ d = none ∧ shapeTruthy ty = false ∧ cleanOpt ty = true
   | .deferredTypeSymbol, ty, n, d =>
-      isProc ty = false ∧ isDerivedNamed ty n = false ∧ (d = none ∨ d = some 0) ∧ shapeTruthy ty = false ∧ cleanOpt ty = false
+      isProc ty = false ∧ isDerivedNamed ty n = false ∧ d = none ∧ shapeTruthy ty = false ∧ cleanOpt ty = false
 
 /-- **decision table**: for every declared type (or none), name and subscripts, the class chosen by the tier
 chain is `c` iff row `c` of the table holds -/
 theorem C13_classify_spec (ty : Option Ty) (n : Name) (d : Option Nat) (c : SymClass) :
     classify ty n d = c ↔ Guard c ty n d := by
   unfold classify
-  have hd : d = none ∨ d = some 0 ∨ ∃ k, d = some (k + 1) := by
-    cases d with
-    | none => exact Or.inl rfl
-    | some k => cases k with
-      | zero => exact Or.inr (Or.inl rfl)
-      | succ k => exact Or.inr (Or.inr ⟨k, rfl⟩)
-  rcases hd with rfl | rfl | ⟨k, rfl⟩ <;>
-    cases h1 : isProc ty <;> cases h2 : isDerivedNamed ty n <;> cases h3 : shapeTruthy ty <;>
-    cases h4 : cleanOpt ty <;> cases c <;> simp [Guard, normDims, h1, h2, h3, h4]
+  cases h1 : isProc ty <;> cases h2 : isDerivedNamed ty n <;> cases h3 : shapeTruthy ty <;>
+    cases h4 : cleanOpt ty <;> cases d <;> cases c <;> simp [Guard, h1, h2, h3, h4]
 
 /-- the rows are exhaustive and mutually exclusive for every input -/
 theorem C13_guards_exhaustive_exclusive (ty : Option Ty) (n : Name) (d : Option Nat) :
@@ -67,27 +59,27 @@ theorem C13_classify_derived_name (t : Ty) (dn n : Name) (i : Option Nat) (d : O
   subst h
   simp [classify, isProc, isDerivedNamed, hn]
 
-/-- row 3: otherwise a non-empty `dimensions` tuple or a non-empty recorded shape makes an `Array` -/
+/-- row 3: otherwise a `dimensions` tuple (even an empty one) or a non-empty recorded shape makes an `Array` -/
 theorem C13_classify_array (ty : Option Ty) (n : Name) (d : Option Nat)
     (h1 : isProc ty = false) (h2 : isDerivedNamed ty n = false)
-    (h : (∃ k, d = some (k + 1)) ∨ (∃ t r, ty = some t ∧ t.shape = some (r + 1))) : classify ty n d = .array := by
+    (h : (∃ k, d = some k) ∨ (∃ t r, ty = some t ∧ t.shape = some (r + 1))) : classify ty n d = .array := by
   apply (C13_classify_spec ty n d _).2
   refine ⟨h1, h2, ?_⟩
   cases h with
-  | inl h => exact Or.inl h
+  | inl h => obtain ⟨k, rfl⟩ := h; simp
   | inr h =>
     obtain ⟨t, r, rfl, hs⟩ := h
     obtain ⟨dt, sh, tg⟩ := t
     simp only at hs
     subst hs
-    exact Or.inr (by simp [shapeTruthy])
+    simp [shapeTruthy]
 
-/-- row 4: otherwise (no subscripts: keyword absent, `None` or `()`) a type whose dtype is not DEFERRED makes a `Scalar` -/
-theorem C13_classify_scalar (t : Ty) (n : Name) (d : Option Nat) (hd0 : d = none ∨ d = some 0)
+/-- row 4: otherwise a type whose dtype is not DEFERRED makes a `Scalar` -/
+theorem C13_classify_scalar (t : Ty) (n : Name)
     (h1 : isProc (some t) = false) (h2 : isDerivedNamed (some t) n = false)
-    (hs : t.shape = none ∨ t.shape = some 0) (hd : t.dtype ≠ .deferred) : classify (some t) n d = .scalar := by
-  apply (C13_classify_spec _ n d _).2
-  refine ⟨h1, h2, hd0, ?_, ?_⟩
+    (hs : t.shape = none ∨ t.shape = some 0) (hd : t.dtype ≠ .deferred) : classify (some t) n none = .scalar := by
+  apply (C13_classify_spec _ n none _).2
+  refine ⟨h1, h2, rfl, ?_, ?_⟩
   · obtain ⟨dt, sh, tg⟩ := t
     cases hs with
     | inl h => simp only at h; subst h; simp [shapeTruthy]
@@ -96,31 +88,49 @@ theorem C13_classify_scalar (t : Ty) (n : Name) (d : Option Nat) (hd0 : d = none
     cases dt <;> simp_all [cleanOpt, Dtype.truthy]
 
 /-- row 5: no type at all, or DEFERRED without shape, and no subscripts: `DeferredTypeSymbol` -/
-theorem C13_classify_deferred (ty : Option Ty) (n : Name) (d : Option Nat) (hd0 : d = none ∨ d = some 0)
+theorem C13_classify_deferred (ty : Option Ty) (n : Name)
     (h : ty = none ∨ ∃ t, ty = some t ∧ t.dtype = .deferred ∧ (t.shape = none ∨ t.shape = some 0)) :
-    classify ty n d = .deferredTypeSymbol := by
-  have hn : normDims d = none := by rcases hd0 with rfl | rfl <;> rfl
+    classify ty n none = .deferredTypeSymbol := by
   cases h with
-  | inl h => subst h; simp [classify, hn, isProc, isDerivedNamed, shapeTruthy, cleanOpt]
+  | inl h => subst h; simp [classify, isProc, isDerivedNamed, shapeTruthy, cleanOpt]
   | inr h =>
     obtain ⟨t, rfl, hd, hs⟩ := h
     obtain ⟨dt, sh, tg⟩ := t
     simp only at hd hs
     subst hd
     cases hs with
-    | inl h => subst h; simp [classify, hn, isProc, isDerivedNamed, shapeTruthy, cleanOpt, Dtype.truthy]
-    | inr h => subst h; simp [classify, hn, isProc, isDerivedNamed, shapeTruthy, cleanOpt, Dtype.truthy]
+    | inl h => subst h; simp [classify, isProc, isDerivedNamed, shapeTruthy, cleanOpt, Dtype.truthy]
+    | inr h => subst h; simp [classify, isProc, isDerivedNamed, shapeTruthy, cleanOpt, Dtype.truthy]
 
-/-- **the tier chain is the decision table of the property statement** (`refClass`: procedure type; derived type of
-the symbol's own name; subscripts given — a non-empty tuple — or a non-empty shape recorded; known dtype; else deferred),
-for every declared type, name and `dimensions` argument.  Full strength since the `fix:` commit that makes
-`dimensions=()` mean "no subscripts" (before it, `Variable('x', INTEGER, dimensions=())` was an `Array`, see
-`LokiModel/Findings/C13.lean`). -/
-theorem C13_class (ty : Option Ty) (n : Name) (d : Option Nat) : classify ty n d = refClass ty n d := by
+/-- full statement against the property's own table (`refClass`: subscripts count when non-empty) -/
+def C13_class_full : Prop := ∀ ty n d, classify ty n d = refClass ty n d
+
+/-- `Variable(name='x', type=INTEGER, dimensions=())` is an `Array` (reached through `Array.rescope`, which always
+passes `dimensions=self.dimensions`, and through `clone(dimensions=())`) -/
+theorem C13_class_full_false : ¬ C13_class_full := by
+  intro h
+  have := h (some { dtype := .integer }) ['x'] (some 0)
+  revert this
+  decide
+
+/-- outside the class `empty-dimensions-array` the tier chain is the table of the property statement -/
+theorem C13_class_partial (ty : Option Ty) (n : Name) (d : Option Nat) (hk : KnownEmptyDims ty n d = false) :
+    classify ty n d = refClass ty n d := by
   unfold classify refClass
+  unfold KnownEmptyDims at hk
+  cases h1 : isProc ty <;> cases h2 : isDerivedNamed ty n <;> cases h3 : shapeTruthy ty <;>
+    simp [h1, h2, h3] at hk ⊢
   cases d with
-  | none => simp [normDims]
-  | some k => cases k <;> simp [normDims]
+  | none => simp
+  | some k =>
+    cases k with
+    | zero => simp at hk
+    | succ k => simp
+
+/-- non-vacuity: inputs outside the class exist in every row -/
+example : KnownEmptyDims (some { dtype := .real, shape := some 2 }) ['x'] (some 0) = false ∧
+          KnownEmptyDims (some { dtype := .integer }) ['x'] none = false ∧
+          KnownEmptyDims none ['x'] (some 1) = false := by decide
 
 /-- the type `Variable.__new__` classifies: the one given, else the one `_get_type_from_scope` finds -/
 def resolved (tds : TDefs) (ss : Scopes) (parts : List Name) (sc : Option Nat) (ty : Option Ty)
@@ -429,12 +439,12 @@ theorem C13_rescope_inserts_missing (tds : TDefs) (ss : Scopes) (sym : Sym) (sc 
     · rw [mkSym_name]; exact lookup_setLocal_same _ _ _ _ hsc
     · exact Or.inr (by simp [mkSym, hp])
 
-/-- `Array.rescope` of an `Array` without subscripts into a scope that declares the name a plain INTEGER gives a
-`Scalar` (before the `fix:` commit for `empty-dimensions-array` it stayed an `Array`) -/
-theorem C13_rescope_array_to_scalar :
+/-- what `Array.rescope` does to the class: an `Array` without subscripts rescoped into a scope that declares the
+name a plain INTEGER stays an `Array` (instance of `empty-dimensions-array`) -/
+theorem C13_rescope_array_stays_array :
     (rescope [] [{ parent := none, table := [("x".toList, { dtype := .integer })] }]
       { self := { cls := .array, base := "x".toList, scope := none, ty := some { dtype := .real, shape := some 1 } } } 0).2
-    = .ok { self := { cls := .scalar, base := "x".toList, scope := some 0, ty := none } } := by decide
+    = .ok { self := { cls := .array, base := "x".toList, scope := some 0, ty := none } } := by decide
 
 /-- non-vacuity of `C13_rescope_keeps_existing`: unattached REAL scalar `x` rescoped into a scope declaring `x` INTEGER -/
 example :
@@ -445,11 +455,11 @@ example :
                                { parent := some 0, table := [("x".toList, { dtype := .integer })] }] := by decide
 
 /-- the tables extracted from the current source agree with what the model hard-codes: the order of the `return`s
-of `Variable.__new__`, the test under which the `dimensions` keyword is dropped (`normDims`), `DEFERRED` being the only `BasicType` of value 0, and every other object tested for
+of `Variable.__new__`, the test under which the `dimensions` keyword is dropped (only `None`, not `()`), `DEFERRED` being the only `BasicType` of value 0, and every other object tested for
 truthiness in the anchored code being truthy -/
 theorem C13_tables_agree :
     Generated.tierReturns = ["ProcedureSymbol", "DerivedTypeSymbol", "Array", "Scalar", "DeferredTypeSymbol"] ∧
-    Generated.dimsPopTest = "'dimensions' in kwargs and (not kwargs['dimensions'])" ∧
+    Generated.dimsPopTest = "'dimensions' in kwargs and kwargs['dimensions'] is None" ∧
     (Generated.basicTypes.filter fun p => p.2 == 0).map (·.1) = ["DEFERRED"] ∧
     Generated.sampleTruthy.all (fun p => p.2) = true := by decide
 
